@@ -6,6 +6,8 @@ import (
 	"go/token"
 	"go/types"
 	"math"
+	"sort"
+	"strings"
 
 	"golang.org/x/tools/go/ssa"
 )
@@ -592,6 +594,77 @@ func checkSamples(c *Checker, sent, received, update *ssa.Function, fSentTimes, 
 			why = fmt.Sprintf("SYN sample (non-zero: %v, zeroed before use: %v)", nonZero, zeroed)
 		}
 		c.decide(okk, "TMO-3", key, instrPos(call), "derived from a fresh, consumed sample: "+why, "the timeout is recomputed from a sample that is not fresh or not consumed: "+why)
+		// ... and only a message that answers the sampled one consumes the sample: the SYN time is
+		// matched by a SYN or SYNACK, a DATA send time by the ACK of that sequence number. (A DATA
+		// packet that consumes the SYN sample measures "time since the SYN", not a round trip.)
+		allowed := map[string]bool{}
+		switch {
+		case isLoadOfField(sample, fSYNTime):
+			allowed["PacketSYN"], allowed["PacketSYNACK"] = true, true
+		default:
+			allowed["PacketACK"] = true
+		}
+		msgParam := ssa.Value(received.Params[1])
+		isTestBlock := map[*ssa.BasicBlock]bool{}
+		var tas []*ssa.TypeAssert
+		allInstrs(received, func(x ssa.Instruction) {
+			if ta, ok := x.(*ssa.TypeAssert); ok && ta.CommaOk && ta.X == msgParam {
+				tas = append(tas, ta)
+				isTestBlock[ta.Block()] = true
+			}
+		})
+		var reach []string
+		badT := ""
+		for _, ta := range tas {
+			var okEx ssa.Value
+			for _, r := range *ta.Referrers() {
+				if ex, ok := r.(*ssa.Extract); ok && ex.Index == 1 {
+					okEx = ex
+				}
+			}
+			if okEx == nil {
+				continue
+			}
+			var succ *ssa.BasicBlock
+			for _, r := range *okEx.Referrers() {
+				if iff, ok := r.(*ssa.If); ok {
+					succ = iff.Block().Succs[0]
+				}
+			}
+			if succ == nil {
+				continue
+			}
+			seen := map[*ssa.BasicBlock]bool{}
+			var walk func(b *ssa.BasicBlock) bool
+			walk = func(b *ssa.BasicBlock) bool {
+				if b == call.Block() {
+					return true
+				}
+				if seen[b] || isTestBlock[b] {
+					return false
+				}
+				seen[b] = true
+				for _, sx := range b.Succs {
+					if walk(sx) {
+						return true
+					}
+				}
+				return false
+			}
+			if walk(succ) {
+				tn := "?"
+				if nn := namedOf(ta.AssertedType); nn != nil {
+					tn = nn.Obj().Name()
+				}
+				reach = append(reach, tn)
+				if !allowed[tn] {
+					badT = tn
+				}
+			}
+		}
+		sort.Strings(reach)
+		c.decide(badT == "" && len(reach) > 0, "TMO-3", key+"|consumed by the answering message type only", instrPos(call), "reached for "+strings.Join(reach, ", "),
+			"the sample is consumed by a "+badT+" message, which is not the answer to the message whose send time was recorded: the 'round trip' is an arbitrary interval")
 	})
 }
 
